@@ -217,6 +217,9 @@ def py_default(v):
         return P.empty
     if v == 0:
         return None
+    if v == 2:
+        # an equal but not identical object every time: default conciliation compares values
+        return float(2)
     return v
 
 
@@ -225,6 +228,8 @@ def desc_default(v):
         return None
     if v is None:
         return 0
+    if isinstance(v, float) and v == 2.0:
+        return 2
     if isinstance(v, int) and not isinstance(v, bool) and v > 0:
         return v
     return 999000 + (hash(repr(v)) % 1000)
